@@ -141,7 +141,7 @@ func CmdGen(pkgs, fnSuffix, dump string, dbg bool, nopanic bool) int {
 		if fr.Unsupported != "" {
 			fmt.Printf("   UNSUPPORTED: %s\n", fr.Unsupported)
 		}
-		rs := Discharge(fr, DischargeOpts{QuickTimeout: 5, FullTimeout: 20, Workers: 16})
+		rs := Discharge(fr, DischargeOpts{QuickTimeout: 6, FullTimeout: 120, Workers: 16})
 		for _, r := range rs {
 			extra := ""
 			if r.Trivial {
